@@ -150,12 +150,26 @@ def _work(units):
                     bad.append(("lensum-twin", collide.same_length_and_sum(base, body)))
                 except ValueError:
                     pass
-            b = impl.build(base)
-            if b[0] != "ok":
-                continue
+            # rejected texts that a NORMALISING change detector would take for the current one: equal after collapsing white space
+            # (the line break that ends a // comment moved), after case folding, after dropping the last line
+            currents = {None: base}
+            cur_ws = base + " // tail }"
+            currents["ws"] = cur_ws
+            bad.append(("layout-twin", base + " //\n tail }", "ws"))
+            bad.append(("layout-twin", base + " //\ntail }", "ws"))
+            bad.append(("case-twin", base.replace("def ", "DEF ", 1), None))
+            bad.append(("case-twin", base.replace(" return ", " Return ", 1), None))
+            bad.append(("case-twin", base.replace(" weighted ", " WEIGHTED ", 1), None))
+            bad = [x if len(x) == 3 else (x[0], x[1], None) for x in bad]
+            built = {}
             probe = {"uid": 1, "org": "a", "f": 1}
-            before = impl.call(b[1], probe)
-            for kind, t in bad:
+            for kind, t, cur in bad:
+                if cur not in built:
+                    bb = impl.build(currents[cur])
+                    built[cur] = (bb, impl.call(bb[1], probe) if bb[0] == "ok" else None)
+                b, before = built[cur]
+                if b[0] != "ok":
+                    continue
                 cl = rp.classify(t)
                 if cl[0] != "reject":
                     acc.add("ambiguous_skipped")
@@ -171,7 +185,7 @@ def _work(units):
                 after = impl.call(b[1], probe)
                 acc.outcomes.add(f"recompile:{kind}:{raised}")
                 if not raised or after != before:
-                    acc.violation({"kind": "reject:recompile-" + kind, "sub": "accepted", "text": t, "current": base,
+                    acc.violation({"kind": "reject:recompile-" + kind, "sub": "accepted", "text": t, "current": currents[cur],
                                    "observed": ["recompile(text) returned normally" if not raised else "raised", f"probe before {before!r} after {after!r}"],
                                    "why": "reference: " + cl[1]})  # fmt: skip
                 fresh = impl.build(t)
